@@ -33,7 +33,7 @@ structure Embeds (ρ τ : Nat → Nat) (T T' : Table) : Prop where
 
 def Stk.map (ρ : Nat → Nat) (s : Stk) : Stk := ⟨s.l.map ρ, s.r.map ρ⟩
 
-def mapAsm (ρ : Nat → Nat) (s : Asm) : Asm := s.map (fun p => (ρ p.1, ρ p.2))
+def mapAsm (ρ : Nat → Nat) (s : Asm) : Asm := s.map (fun p => (ρ p.1, ρ p.2.1, p.2.2.map ρ))
 
 def mapRes (ρ : Nat → Nat) (r : Res) : Res := r.map (fun p => (p.1, mapAsm ρ p.2))
 
